@@ -75,3 +75,67 @@ Example ex_modek_value :
                          (full_of Z 0 ([2%nat; 1%nat; 3%nat], [1; 2; 3; 4; 5; 6])))
   = ([2%nat; 1%nat; 2%nat], [7; -1; 16; -1]).
 Proof. vm_compute. reflexivity. Qed.
+
+(* ---- second round ---- *)
+From Verif.C18 Require Import Proofs2.
+
+(* find_truncation_rank on a 2x3 integer core with tol^2 = 5: the last column (squared norm 1+1) and
+   then the last row (squared norm 0+1... ) are cut while the accumulated error stays <= 5 *)
+Definition trX : full Z := full_of Z 0 ([2%nat; 3%nat], [3; 2; 1; 1; 1; 1]).
+Example ex_trunc_hyp : Z.ltb 5 0 = false.
+Proof. reflexivity. Qed.
+Example ex_trunc_value : find_truncation_rank Z 0 Z.add Z.mul Z.ltb trX 5 = ([1%nat; 2%nat], 4).
+Proof. vm_compute. reflexivity. Qed.
+Example ex_trunc_mass :
+  sqnorm Z 0 Z.add Z.mul [2%nat; 3%nat] (fe Z trX) = sqnorm Z 0 Z.add Z.mul [1%nat; 2%nat] (fe Z trX) + 4.
+Proof. vm_compute. reflexivity. Qed.
+
+(* the loop of apply_tprod and the nested-sum definition on a concrete 2x2x2 array, middle operator None *)
+Example ex_loop_value :
+  let Bs := [Some (mat_of Z 0 (M 1 2 [[1; -1]])); None; Some (mat_of Z 0 (M 2 2 [[0; 1]; [2; 1]]))] in
+  let f := fe Z (full_of Z 0 ([2%nat; 2%nat; 2%nat], [1; 2; 3; 4; 5; 6; 7; 8])) in
+  map (tprod_loop Z 0 Z.add Z.mul Bs f) (ndindex [1%nat; 2%nat; 2%nat])
+  = map (tprod Z 0 Z.add Z.mul Bs f) (ndindex [1%nat; 2%nat; 2%nat])
+  /\ map (tprod Z 0 Z.add Z.mul Bs f) (ndindex [1%nat; 2%nat; 2%nat]) = [-4; -12; -4; -12].
+Proof. vm_compute. split; reflexivity. Qed.
+
+(* __getitem__ of the canonical tensor mA (shape 2x3, rank 2) with [-1, ::-2]: hypotheses of canon_getitem *)
+Example ex_getitem_norm :
+  normalize_indices [IInt (-1); ISlice None None (Some (-2))] (cshape Z mA)
+  = Ok [([1%nat], true); ([2%nat; 0%nat], false)].
+Proof. vm_compute. reflexivity. Qed.
+Example ex_getitem_ok :
+  tab Z (getitem Z 0 1 Z.add Z.mul (TCanon Z mA) [IInt (-1); ISlice None None (Some (-2))])
+  = Ca [M 2 2 [[6; -4]; [3; 0]]].
+Proof. vm_compute. reflexivity. Qed.
+Example ex_uniform_crank : Proofs2.uniform Z mA (crank Z mA).
+Proof. repeat constructor. Qed.
+Example ex_squeeze_hyps : NoDup [0%nat] /\ keep 0 mA [0%nat] <> [].
+Proof. split; [repeat constructor; simpl; tauto|vm_compute; discriminate]. Qed.
+
+(* Tucker -> canonical: the zero test of the integer instance satisfies the hypothesis *)
+Example ex_nonzero_hyp : forall a, znonzero a = false -> a = 0.
+Proof. intros a H. unfold znonzero in H. destruct (Z.eqb_spec a 0); [assumption|discriminate]. Qed.
+Example ex_t2c_value :
+  full_tab Z (canon_asarray Z 0 1 Z.add Z.mul (tucker_to_canon Z 0 Z.mul znonzero tU tX))
+  = full_tab Z (tucker_asarray Z 0 Z.add Z.mul tU tX).
+Proof. vm_compute. reflexivity. Qed.
+
+(* pad: a literal array vanishes outside its shape (hypothesis of pad_spec) *)
+Example ex_pad_hyp : forall J, all_lt J [2%nat] = false -> fe Z (full_of Z 0 ([2%nat], [5; 7])) J = 0.
+Proof.
+  intros [|j [|j' J]] H; simpl in *; try discriminate.
+  - destruct j as [|[|j]]; simpl in *; try discriminate. destruct j; reflexivity.
+  - destruct j as [|[|j]]; simpl in *; try discriminate. destruct j; reflexivity.
+Qed.
+Example ex_slice_hyp : Forall (fun t : list (mat Z) => length t = length [(0%nat, 1%nat); (1%nat, 2%nat)]) opA.
+Proof. repeat constructor. Qed.
+
+(* generator: X[::-1, [2,0]] of a 2x3 array -- hypotheses of generator_getitem_spec_partial *)
+Example ex_gen_hyps :
+  normalize_indices [ISlice None None (Some (-1)); IList [2; 0]] [2%nat; 3%nat]
+    = Ok [([1%nat; 0%nat], false); ([2%nat; 0%nat], false)]
+  /\ sel_singletons 0 [([1%nat; 0%nat], false); ([2%nat; 0%nat], false)] = []
+  /\ gen_getitem Z [2%nat; 3%nat] (fe Z (full_of Z 0 ([2%nat; 3%nat], [1; 2; 3; 4; 5; 6])))
+       [ISlice None None (Some (-1)); IList [2; 0]] = Ok ([2%nat; 2%nat], [6; 4; 3; 1]).
+Proof. vm_compute. repeat split; reflexivity. Qed.
